@@ -17,7 +17,16 @@ Streams: (1) truncation at every byte offset of a small cache (one file) and at 
 two-file cache: junk texts (empty, blank, not JSON, invalid UTF-8, wrong top-level types, objects
 lacking keys), every key removed at every level, every value (object members and list elements)
 replaced by values of every other JSON type, empty and non-empty; (3) cache directory without
-file and/or marker files, directory removed; (4) random histories of faults, edits and scans."""
+file and/or marker files, directory removed; (4) random histories of faults, edits and scans;
+(5) states a crashed or concurrent run leaves behind: a scan in a forked child process is really
+stopped - RLIMIT_FSIZE = n with SIGXFSZ at its default action (killed by the kernel when the file
+being written reaches n bytes) or ignored (the write fails with EFBIG, as on a full disk), or
+SIGKILL immediately before its k-th modification of the file system - from three states (never
+scanned / cache of an older tree / cache up to date); extra files in the cache directory (lock,
+temp, backup names: 5 stems x 10 suffixes, plus every name the stopped scans really left), cache
+files with mtimes 10^k seconds in the past / future, the cache directory renamed away; each
+followed by two scans.  Streams (1)-(3) and (5) run under the four configurations the CLI can set up
+(verbose, repository), stream (4) draws the configuration per history and switches it inside."""
 import json
 import os
 import sys
@@ -29,6 +38,7 @@ import cache_real as cr
 ID = "C10"
 TRUSTED = [
     "correspondence harness harness/props/C10.py + harness/cache_real.py (fault injection on the real cache file; abstraction function abstract_cache; rich output silenced by patching rich, not codelimit)",
+    "stopped scans (stream 5): os.fork of the harness process, RLIMIT_FSIZE / SIGXFSZ or a sys.addaudithook that sends SIGKILL before the k-th open-for-writing / mkdir / remove / rename below the scanned root; what is left on disk is classified by abstract_cache; directory states the model has no word for (one marker file only) are checked by the oracles only and counted in distribution.oracle_only_histories",
     "the byte contract (ByteContract: round trip, unreadable proper prefixes, whitespace cuts) is a hypothesis of truncated_write_harmless; it is checked at every explored offset on the real writer and reader, and proved for the JSON model under C08",
 ]
 ASSUMPTIONS = [
@@ -55,13 +65,68 @@ def jtype(v):
     return "array" if isinstance(v, list) else "object"
 
 
-def probe(init):
-    w = cr.new_world(init, 0)
+def probe(init, cfg=0):
+    w = cr.new_world(init, 0, cfg)
     try:
         w.apply(["s"])
         return w.cache_bytes()
     finally:
         w.close()
+
+
+def leftovers(init):
+    """names of files that really stopped scans leave in the cache directory besides the three a
+    completed scan leaves (found by stopping scans, not by reading the code)"""
+    known = {"codelimit.json", "CACHEDIR.TAG", ".gitignore"}
+    names = set()
+    for prefix in ([], [["s"], ["w", 0, 2]]):
+        for mode, ns in ((2, range(0, 8)), (0, (0, 45, 100, 400, 900))):
+            for n in ns:
+                w = cr.new_world(init, 0)
+                try:
+                    for op in prefix:
+                        w.apply(op)
+                    w.apply(["ks", mode, n])
+                    d = cr.cache_paths(w.root)[0]
+                    if os.path.isdir(d):
+                        names |= set(os.listdir(d)) - known
+                finally:
+                    w.close()
+    return sorted(names)
+
+
+def stop_points(size, thorough):
+    """RLIMIT_FSIZE values: the marker files are 43 and 40 bytes, the cache file `size` bytes"""
+    if thorough:
+        return list(range(0, size + 3))
+    pts = {0, 1, 39, 40, 41, 42, 43, 44, size - 1, size, size + 1}
+    pts |= set(range(50, size, 97))
+    return sorted(pts)
+
+
+def interrupted_variants(size, thorough):
+    out = []
+    for mode in (0, 1):
+        out += [[["ks", mode, n], ["s"], ["s"]] for n in stop_points(size, thorough)]
+    out += [[["ks", 2, n], ["s"], ["s"]] for n in range(0, 6)]
+    out += [[["ks", 2, n], ["ks", 0, 60 + 100 * n], ["s"], ["s"]] for n in range(0, 5)]
+    return out
+
+
+def leftover_variants(names, thorough):
+    out = []
+    for i, name in enumerate(names):
+        kinds = range(4) if thorough else [i % 4]
+        for k in kinds:
+            out += [[["xf", name, k], ["w", 0, 2], ["s"], ["s"]],
+                    [["xf", name, k], ["trunc", 40 + i], ["s"], ["s"]],
+                    [["xf", name, k], ["cm"], ["s"], ["s"]]]
+    ks = range(10) if thorough else (1, 5, 9)
+    for k in ks:
+        for sign in (0, 1):
+            out += [[["cold", k, sign], ["w", 0, 2], ["s"], ["s"]], [["w", 0, 2], ["cold", k, sign], ["trunc", 200 + k], ["s"], ["s"]]]
+    out += [[["cmv"], ["s"], ["s"]], [["cmv"], ["w", 0, 2], ["s"], ["cmv"], ["s"], ["s"]], [["trunc", 30], ["cmv"], ["s"], ["s"]]]
+    return out
 
 
 def json_paths(doc, prefix=()):
@@ -92,25 +157,40 @@ def structural_faults(doc):
     return faults
 
 
-def gen_fault_history(rnd, paths, maxlen):
-    init = [(p, rnd.randrange(cr.NCONTENT)) for p in range(len(cr.PATHS)) if rnd.random() < 0.7]
+CONTENTS = cr.PLAIN * 3 + cr.DENSE + [7, 8]     # the 10^6 rung is C09's business (cost)
+
+
+def gen_fault_history(rnd, paths, maxlen, names=None):
+    names = names or cr.EXTRA_NAMES
+    init = [(p, rnd.choice(CONTENTS)) for p in range(len(cr.PATHS)) if rnd.random() < 0.6]
     ops = [["s"]] if rnd.random() < 0.8 else []
     for _ in range(rnd.randint(2, maxlen)):
         r = rnd.random()
-        if r < 0.3:
+        if r < 0.28:
             ops.append(["s"])
-        elif r < 0.38:
-            ops.append(["w", rnd.randrange(len(cr.PATHS)), rnd.randrange(cr.NCONTENT)])
-        elif r < 0.42:
+        elif r < 0.36:
+            ops.append(["w", rnd.randrange(len(cr.PATHS)), rnd.choice(CONTENTS)])
+        elif r < 0.40:
             ops.append(["d", rnd.randrange(len(cr.PATHS))])
-        elif r < 0.50:
+        elif r < 0.46:
             ops.append(["trunc", rnd.randrange(4000)] if rnd.random() < 0.7 else ["k", 1])
-        elif r < 0.58:
+        elif r < 0.52:
             ops.append(["bytes", rnd.choice(cr.JUNK).decode("latin-1")])
-        elif r < 0.68:
+        elif r < 0.59:
             ops.append(["jdel", rnd.choice(paths)])
-        elif r < 0.80:
+        elif r < 0.67:
             ops.append(["jset", rnd.choice(paths), rnd.choice(OTHER_VALUES)])
+        elif r < 0.74:
+            mode = rnd.randrange(3)
+            ops.append(["ks", mode, rnd.randrange(6) if mode == 2 else rnd.choice([rnd.randrange(100), rnd.randrange(1000), rnd.randrange(5000)])])
+        elif r < 0.77:
+            ops.append(["xf", rnd.choice(names), rnd.randrange(4)])
+        elif r < 0.785:
+            ops.append(["cold", rnd.randrange(10), rnd.randrange(2)])
+        elif r < 0.79:
+            ops.append(["cmv"])
+        elif r < 0.80:
+            ops.append(["cfg", rnd.randrange(cr.CFGS)])
         elif r < 0.85:
             ops.append(["ca", rnd.choice([0, 2, 3, 4]), rnd.randrange(4), rnd.randrange(cr.NCONTENT + 1), rnd.choice([0, 1000])])
         elif r < 0.88:
@@ -122,7 +202,7 @@ def gen_fault_history(rnd, paths, maxlen):
         else:
             ops.append(["cj", 1])
     ops += [["s"], ["s"]]
-    return {"init": [list(x) for x in init], "excl": 0, "ops": ops}
+    return {"init": [list(x) for x in init], "excl": 0, "cfg": rnd.choice([0, 0, 1, 2, 3]), "ops": ops}
 
 
 def _chunks(l, n):
@@ -130,12 +210,18 @@ def _chunks(l, n):
     return [l[i:i + k] for i in range(0, len(l), k)]
 
 
+STALE = [["s"], ["w", 0, 2]]      # a cache that the next scan has to rewrite
+
+
 def _correspond_main(ctx):
     cr.pre()
-    small, large, medium = probe(SMALL), probe(LARGE), probe(MEDIUM)
+    cfgs = list(range(cr.CFGS))
+    small = {k: probe(SMALL, k) for k in cfgs}
+    medium = {k: probe(MEDIUM, k) for k in cfgs}
+    large = probe(LARGE)
     tasks = []
-    # (1) truncation
-    offs_small = list(range(len(small) + 1))
+    # (1) truncation: the one-file cache at every offset under every configuration, the four-file one
+    # under the default configuration (thorough: under all)
     if ctx.thorough:
         offs_large = list(range(len(large) + 1))
     else:
@@ -144,25 +230,52 @@ def _correspond_main(ctx):
             if b == 0x0A:
                 marks |= {i - 1, i, i + 1}
         offs_large = sorted(m for m in marks if 0 <= m <= len(large))
-    for init, offs in ((SMALL, offs_small), (LARGE, offs_large)):
-        for ch in _chunks([[["trunc", n], ["s"], ["s"]] for n in offs], 24):
-            tasks.append((init, 0, [["s"]], ch))
-    n_trunc = len(offs_small) + len(offs_large)
-    # (2) structural faults
-    faults = structural_faults(json.loads(medium.decode()))
-    for ch in _chunks([[f, ["s"], ["s"]] for f in faults], 32):
-        tasks.append((MEDIUM, 0, [["s"]], ch))
+    n_trunc = 0
+    for k in cfgs:
+        offs = list(range(len(small[k]) + 1))
+        n_trunc += len(offs)
+        for ch in _chunks([[["trunc", n], ["s"], ["s"]] for n in offs], 12):
+            tasks.append((SMALL, 0, [["s"]], ch, k))
+    for k in (cfgs if ctx.thorough else [0]):
+        n_trunc += len(offs_large)
+        for ch in _chunks([[["trunc", n], ["s"], ["s"]] for n in offs_large], 24):
+            tasks.append((LARGE, 0, [["s"]], ch, k))
+    # (2) structural faults, under every configuration (the repository adds keys to the document)
+    n_faults = {}
+    for k in cfgs:
+        faults = structural_faults(json.loads(medium[k].decode()))
+        n_faults[k] = len(faults)
+        for ch in _chunks([[f, ["s"], ["s"]] for f in faults], 16):
+            tasks.append((MEDIUM, 0, [["s"]], ch, k))
     # (3) the cache directory
     dirv = [[["cm"], ["s"], ["s"]], [["cm"], ["M"], ["s"], ["s"]], [["M"], ["s"], ["s"]], [["D"], ["s"], ["s"]],
             [["M"], ["trunc", 40], ["s"], ["M"], ["cm"], ["s"]], [["D"], ["bytes", "junk"], ["s"], ["s"]]]
-    tasks.append((MEDIUM, 0, [["s"]], dirv))
-    tasks.append(([], 0, [], dirv))
+    for k in cfgs:
+        tasks.append((MEDIUM, 0, [["s"]], dirv, k))
+        tasks.append(([], 0, [], dirv, k))
+    # (5) what crashed or concurrent runs leave behind
+    left = leftovers(MEDIUM)
+    names = cr.EXTRA_NAMES + [n for n in left if n not in cr.EXTRA_NAMES]
+    lv = leftover_variants(names, ctx.thorough)
+    n_stop = 0
+    for k in cfgs:
+        iv = interrupted_variants(len(medium[k]), ctx.thorough)
+        states = ([], STALE, [["s"]]) if ctx.thorough else ([], STALE, [["s"]])[k % 3:] + ([], STALE, [["s"]])[:k % 3]
+        for j, prefix in enumerate(states):
+            # quick tier: each configuration takes every other stop point of a state, shifted per state
+            part = iv if ctx.thorough else [v for i, v in enumerate(iv) if v[0][1] == 2 or (i + j + k) % 2 == 0]
+            n_stop += len(part)
+            for ch in _chunks(part, 4):
+                tasks.append((MEDIUM, 0, prefix, ch, k))
+        part = lv if ctx.thorough else [v for i, v in enumerate(lv) if i % cr.CFGS == k]
+        for ch in _chunks(part, 4):
+            tasks.append((MEDIUM, 0, [["s"]], ch, k))
     recs = [r for part in cr.pool_map(cr.run_variants, tasks) for r in part]
     # (4) random fault histories
     rnd = ctx.rng("fault-histories")
-    jpaths = [p for p, _ in json_paths(json.loads(large.decode()))]
+    jpaths = [p for p, _ in json_paths(json.loads(probe(LARGE, 2).decode()))]
     nrand = ctx.pick(600, 8000)
-    hists = [gen_fault_history(rnd, jpaths, 14) for _ in range(nrand)]
+    hists = [gen_fault_history(rnd, jpaths, 14, names) for _ in range(nrand)]
     rrecs = [r for part in cr.pool_map(cr.run_histories, [hists[i::32] for i in range(32)]) for r in part]
     dis, fails = cr.judge(recs + rrecs)
     # every fault must be followed by a scan that analyses everything or reuses an honest rest,
@@ -171,7 +284,7 @@ def _correspond_main(ctx):
         if r.get("forged") or len(r["real"]) < 2 or r["input"]["ops"][-2:] != [["s"], ["s"]]:
             continue
         last = r["real"][-1]
-        if len(last) == 5 and last[2]:
+        if last is not None and len(last) == 5 and last[2]:
             fails.append({"input": r["input"], "observed": "the scan after the repairing scan analysed %s again" % (last[2],),
                           "required": "a complete cache is left behind: the next scan of the unchanged tree reuses every entry"})
     kinds = {}
@@ -185,19 +298,37 @@ def _correspond_main(ctx):
         classes["junk" if tail[:1] == ["cj"] or tail[:2] == ["k", "0"] else
                 "document" if tail[:1] == ["cd"] or tail[:2] == ["k", "1"] else
                 "missing" if tail[:1] == ["cm"] else "noop"] += 1
-    nscans = sum(len(r["real"]) for r in recs + rrecs)
+    # what the stopped scans of stream (5) left behind, as the abstraction function sees it
+    stopped = {"phantom_first_scan": 0, "oracle_only": 0, "left_unreadable": 0, "left_document": 0, "left_nothing_new": 0}
+    for r in recs + rrecs:
+        if not any(op[0] == "ks" for op in r["input"]["ops"]):
+            continue
+        stopped["oracle_only"] += 1 if r.get("oracle_only") else 0
+        stopped["phantom_first_scan"] += sum(1 for o in r["real"] if o is None)
+        ws = r["request"].split()
+        stopped["left_unreadable"] += 1 if "cj" in ws else 0
+        stopped["left_document"] += 1 if "cd" in ws else 0
+        stopped["left_nothing_new"] += 1 if not ("cj" in ws or "cd" in ws) else 0
+    nscans = sum(sum(1 for o in r["real"] if o is not None) for r in recs + rrecs)
     forged = sum(1 for r in recs + rrecs if r.get("forged"))
+    per_cfg = {str(k): sum(1 for r in recs + rrecs if r["input"].get("cfg", 0) == k) for k in cfgs}
     fails = _shrunk(fails)
     return {
         "evaluations": nscans,
-        "distinct_nontrivial": len(set(json.dumps(r["input"]["ops"]) for r in recs + rrecs)),
-        "rule": "truncation of the cache file at every byte offset 0..%d of a one-file cache and at %d %s offsets of a four-file cache (%d bytes); %d structural faults on a two-file cache (junk texts, every key removed at every level, every member/element replaced by %d values of other JSON types incl. empty ones); cache directory without file / markers / removed; %d random histories of faults, edits and scans of length <= 16; after each fault two scans (repairing scan, then a scan that must reuse everything); %d scans in total; forged (outside the property) histories skipped: %d" % (
-            len(small), len(offs_large), "(all)" if ctx.thorough else "stratified (every 5th, around every line break, the last three)", len(large),
-            len(faults), len(OTHER_VALUES), nrand, nscans, forged),
+        "distinct_nontrivial": len(set(json.dumps([r["input"].get("cfg", 0), r["input"]["ops"]]) for r in recs + rrecs)),
+        "rule": "truncation of the cache file at every byte offset of a one-file cache (%s bytes under the 4 configurations default / verbose / repository / both) and at %d %s offsets of a four-file cache (%d bytes%s); structural faults on a two-file cache under each configuration (%s: junk texts, every key removed at every level, every member/element replaced by %d values of other JSON types incl. empty ones); cache directory without file / markers / removed, under each configuration; %d scans really stopped in a child process (RLIMIT_FSIZE at %s byte counts with SIGXFSZ killing / EFBIG raised, SIGKILL before the k-th file-system modification, k < 6, and both in a row) from 3 states (never scanned, cache of an older tree, cache up to date) over the 4 configurations; %d histories with an extra file in the cache directory (%d names = 5 stems x 10 suffixes + %d names stopped scans really left: %s), cache files with old / future mtimes (10^k s), cache directory renamed away; %d random histories of faults (incl. stopped scans, extra files, mtimes), edits, configuration switches and scans of length <= 16; after each fault two scans (repairing scan, then a scan that must reuse everything); %d scans in total; forged (outside the property) histories skipped: %d" % (
+            "/".join(str(len(small[k])) for k in cfgs), len(offs_large), "(all)" if ctx.thorough else "stratified (every 5th, around every line break, the last three)", len(large),
+            " under each configuration" if ctx.thorough else "", "/".join(str(n_faults[k]) for k in cfgs), len(OTHER_VALUES),
+            n_stop, "all" if ctx.thorough else "stratified (around the sizes of the marker files and of the cache file, every 97th between)",
+            len(lv), len(names), len(left), left, nrand, nscans, forged),
         "samples": [{"request": r["request"][:300], "real_last_scan": str(r["real"][-1])[:200]} for r in (recs[3:5] + recs[-2:] + rrecs[:2])],
         "exhaustive": True,
-        "distribution": {"truncation_offsets": n_trunc, "structural_faults": len(faults), "ops": kinds,
-                         "fault_class_seen_by_model": classes, "random_histories": nrand},
+        "distribution": {"truncation_offsets": n_trunc, "structural_faults": n_faults, "ops": kinds,
+                         "fault_class_seen_by_model": classes, "random_histories": nrand,
+                         "stopped_scans": n_stop, "histories_with_stopped_scans": stopped,
+                         "extra_file_mtime_rename_histories": len(lv), "leftover_names_discovered": left,
+                         "histories_per_configuration": per_cfg,
+                         "oracle_only_histories": sum(1 for r in recs + rrecs if r.get("oracle_only"))},
         "disagreements": dis[:50], "oracle_failures": fails[:50],
     }
 
@@ -230,7 +361,7 @@ def search(ctx, hints):
         if len(found) >= 3:
             return found
     rnd = ctx.rng("search")
-    large = probe(LARGE)
+    large = probe(LARGE, 2)
     jpaths = [p for p, _ in json_paths(json.loads(large.decode()))]
     hists = [gen_fault_history(rnd, jpaths, 14) for _ in range(ctx.pick(600, 4000))]
     recs = [r for part in cr.pool_map(cr.run_histories, [hists[i::32] for i in range(32)]) for r in part]
